@@ -104,7 +104,7 @@ theorem push_step (G : GCtx) (n : Nat) (hPX : ∀ m, m ≤ n → PV G m) (A : Ac
     · rw [h]; trivial
     · rw [h]
       simp only []
-      rcases memberVal_method bv "push" msp spec (hsp.heap hfr) (Or.inr rfl) with hm | ⟨w, hm⟩
+      rcases memberVal_method bv "push" msp spec (hsp.heap hfr) (by decide) with hm | ⟨w, hm⟩
       · rw [hm]
         simp only [List.map_cons, List.map_nil]
         rw [evalList_cons]
@@ -161,7 +161,7 @@ theorem push_step (G : GCtx) (n : Nat) (hPX : ∀ m, m ≤ n → PV G m) (A : Ac
     simp only []
     have hrunAB := (hrunA spec.world).trans hrun1
     have hsp1 := hsp.world st1 hfr1 hrunAB.inv
-    rcases memberVal_method bv "push" msp st1 (hsp1.heap hfr) (Or.inr rfl) with hm | ⟨w, hm⟩
+    rcases memberVal_method bv "push" msp st1 (hsp1.heap hfr) (by decide) with hm | ⟨w, hm⟩
     · rw [hm]
       simp only []
       have hb2 := bound_of_resolved hrel.rel.scopes (Frag.varsE a.2) hTa' hresa
